@@ -102,3 +102,14 @@ package roles
 //@   invariant [C18:one-rule-per-group-names-the-group] forall i :: 0 <= i && i < len(rules) ==> live(rules[i].APIGroups) && len(rules[i].APIGroups) == 1 && rules[i].APIGroups[0] == groups[i]
 //@   invariant [C18:one-rule-per-group-resources] forall i :: 0 <= i && i < len(rules) ==> rules[i].Resources == resources[groups[i]] && len(rules[i].ResourceNames) == 0 && len(rules[i].NonResourceURLs) == 0
 //@ ensures [C18:three-roles-or-none] len(result) == 0 || len(result) == 3
+
+// C18 (allow-list): permission requests are judged against the administrator's allow-list
+// ClusterRole as read from the API server in this very call; when that role cannot be read -
+// including when it does not exist - the validation fails, it never answers "nothing rejected".
+//@ func (*roles.ClusterRoleBackedValidator).ValidatePermissionRequests
+//@ props C18
+//@ ghost roleRead bool = false
+//@ site (client.Reader).Get(_, _, $key, $obj, $go...)
+//@   assert [C18:reads-the-configured-allow-list-role] $key.Name == v.name && $key.Namespace == ""
+//@   update roleRead = err == nil
+//@ ensures [C18:nothing-is-allowed-without-the-allow-list-role] err == nil ==> roleRead
